@@ -76,7 +76,15 @@ func (s *sseNotificationSender) SendCustomNotification(method string, params map
 	if meta, ok := params["_meta"]; ok {
 		if metaMap, isMap := meta.(map[string]interface{}); isMap {
 			notificationParams.Meta = metaMap
-			delete(params, "_meta") // Remove from AdditionalFields to avoid duplication
+			// Leave _meta out of the additional fields to avoid duplication. The caller's map is
+			// not modified (it may be used for the next notification): the fields are copied.
+			fields := make(map[string]interface{}, len(params))
+			for k, v := range params {
+				if k != "_meta" {
+					fields[k] = v
+				}
+			}
+			notificationParams.AdditionalFields = fields
 		}
 	}
 
